@@ -18,6 +18,8 @@ const (
 	zzEvPauseClient // the user pauses the transfer (stop/continue question) just before the k-th server message
 	zzEvDropToClient // message k (server -> client) is lost as a whole
 	zzEvDropToServer
+	zzEvDupToClient // message k (server -> client) is delivered twice
+	zzEvDupToServer
 )
 
 type zzSess struct {
@@ -106,6 +108,11 @@ func (w *zzSessToClient) Write(p []byte) (int, error) {
 			s.fired = true
 			return len(p), nil
 		}
+	case zzEvDupToClient:
+		if idx == s.at {
+			s.fired = true
+			s.toClient <- append([]byte{}, c...)
+		}
 	}
 	s.toClient <- c
 	return len(p), nil
@@ -133,6 +140,11 @@ func (w *zzSessToServer) Write(p []byte) (int, error) {
 		if idx == s.at {
 			s.fired = true
 			return len(p), nil
+		}
+	case zzEvDupToServer:
+		if idx == s.at {
+			s.fired = true
+			s.V.addReceivedData(append([]byte{}, c...), false)
 		}
 	}
 	s.V.addReceivedData(c, false)
@@ -198,7 +210,7 @@ func zzRunSession(upload bool, event, maxAt int, timeout int) (*zzSess, *zzSessR
 	s := &zzSess{toClient: make(chan []byte, 400), term: &zzCap5{}, event: event, pauseTicks: zzPauseTicks}
 	if event != zzEvNone {
 		lo := 0
-		if event == zzEvSilenceToServer || event == zzEvDamageToServer || event == zzEvDropToServer {
+		if event == zzEvSilenceToServer || event == zzEvDamageToServer || event == zzEvDropToServer || event == zzEvDupToServer {
 			lo = 1 // the handshake has begun: the client's ACT (its message 0) has reached the server
 		}
 		s.at = verifNondetRange(lo, maxAt)
@@ -391,7 +403,7 @@ func zzH_C02_session() {
 	upload := verifNondetBool()
 	event := verifNondetRange(zzEvDamageToClient, zzEvDamageToServer)
 	if verifBoundOr("DROP", 0) == 1 {
-		event = verifNondetRange(zzEvDropToClient, zzEvDropToServer) // a whole message is lost instead
+		event = verifNondetRange(zzEvDropToClient, zzEvDupToServer) // a whole message is lost, or delivered twice, instead
 	}
 	s, res := zzRunSession(upload, event, verifBound("MSGS"), 1)
 	verifAssert(res.serverDone, "the server side did not return")
